@@ -325,10 +325,85 @@ theorem beq_false_of_toNat_ne {c k : UInt8} (h : c.toNat ≠ k.toNat) : (c == k)
   intro e
   exact h (by rw [eq_of_beq e])
 
+/-- well-formed string body: what the string rule admits between the quotes
+(plain bytes, and complete escapes) -/
+inductive WF : Bytes → Prop
+  | nil : WF []
+  | plain (c : UInt8) (r : Bytes) : (c == 0x5C) = false → WF r → WF (c :: r)
+  | esc (c2 : UInt8) (k : Nat) (hex : Bool) (args tail : Bytes) :
+      ruleEsc c2 = some (k, hex) → args.length = k → digitsOK hex args = true → WF tail →
+      WF (0x5C :: c2 :: (args ++ tail))
+
+/-- the surrogate-pair look-ahead consumes either nothing or exactly one
+complete following `\uXXXX` escape, and cannot panic on a well-formed rest -/
+theorem surrPair_ok (r : Nat) (tail : Bytes) (hw : WF tail) :
+    ∃ out rest, surrPair r tail = some (out, rest) ∧ WF rest ∧ rest.length ≤ tail.length := by
+  unfold surrPair
+  split
+  · cases hw with
+    | nil => exact ⟨_, _, rfl, WF.nil, Nat.le_refl _⟩
+    | plain c r' hc hr =>
+      -- first byte is not a backslash: no pairing
+      have hres : ∀ (o : Option (Bytes × Bytes)),
+          (match c :: r' with
+            | c :: d :: g0 :: g1 :: g2 :: g3 :: rest2 =>
+              if (c == 0x5C && d == 0x75) = true then o else some (encodeRune r, c :: r')
+            | _ => some (encodeRune r, c :: r')) = some (encodeRune r, c :: r') := by
+        intro o
+        split
+        · rename_i heq
+          injection heq with h1 h2
+          subst h1
+          simp [hc]
+        · rfl
+      match r', hr with
+      | d :: g0 :: g1 :: g2 :: g3 :: rest2, hr =>
+        simp only [hc, Bool.false_and, Bool.false_eq_true, ↓reduceIte]
+        exact ⟨_, _, rfl, WF.plain _ _ hc hr, Nat.le_refl _⟩
+      | [], hr => exact ⟨_, _, rfl, WF.plain _ _ hc hr, Nat.le_refl _⟩
+      | [_], hr => exact ⟨_, _, rfl, WF.plain _ _ hc hr, Nat.le_refl _⟩
+      | [_, _], hr => exact ⟨_, _, rfl, WF.plain _ _ hc hr, Nat.le_refl _⟩
+      | [_, _, _], hr => exact ⟨_, _, rfl, WF.plain _ _ hc hr, Nat.le_refl _⟩
+      | [_, _, _, _], hr => exact ⟨_, _, rfl, WF.plain _ _ hc hr, Nat.le_refl _⟩
+    | esc c2 k hex args tl hr hl hd ht =>
+      have hwf : WF (0x5C :: c2 :: (args ++ tl)) := WF.esc c2 k hex args tl hr hl hd ht
+      by_cases hu : (c2 == 0x75) = true
+      · -- the next escape is a \u escape: four hex digits follow
+        have hc2 : c2 = 0x75 := eq_of_beq hu
+        subst hc2
+        have hk : k = 4 ∧ hex = true := by
+          have : ruleEsc 0x75 = some (4, true) := by decide
+          rw [this] at hr; injection hr with hr; injection hr with h1 h2
+          exact ⟨h1.symm, h2.symm⟩
+        obtain ⟨rfl, rfl⟩ := hk
+        match args, hl with
+        | [g0, g1, g2, g3], _ =>
+          simp only [digitsOK, ↓reduceIte, List.all_cons, List.all_nil, Bool.and_true,
+            Bool.and_eq_true] at hd
+          obtain ⟨v, hv⟩ := hexByte_some hd.1 hd.2.1
+          obtain ⟨w, hw'⟩ := hexByte_some hd.2.2.1 hd.2.2.2
+          simp only [List.cons_append, List.nil_append, beq_self_eq_true, Bool.and_self, ↓reduceIte,
+            hv, hw']
+          split
+          · exact ⟨_, _, rfl, ht, by simp only [List.length_cons]; omega⟩
+          · exact ⟨_, _, rfl, hwf, Nat.le_refl _⟩
+      · -- some other escape: no pairing
+        have hu' : (c2 == 0x75) = false := by simpa using hu
+        match hsh : args ++ tl with
+        | g0 :: g1 :: g2 :: g3 :: rest2 =>
+          simp only [hu', Bool.and_false, Bool.false_eq_true, ↓reduceIte]
+          exact ⟨_, _, rfl, hsh ▸ hwf, Nat.le_refl _⟩
+        | [] => exact ⟨_, _, rfl, hsh ▸ hwf, Nat.le_refl _⟩
+        | [_] => exact ⟨_, _, rfl, hsh ▸ hwf, Nat.le_refl _⟩
+        | [_, _] => exact ⟨_, _, rfl, hsh ▸ hwf, Nat.le_refl _⟩
+        | [_, _, _] => exact ⟨_, _, rfl, hsh ▸ hwf, Nat.le_refl _⟩
+  · exact ⟨_, _, rfl, hw, Nat.le_refl _⟩
+
 /-- the escape forms the string rule admits are exactly handled by the
 `switch` of `unquoteBytes`, which consumes the digits the rule demanded -/
 theorem goEscape_ok {c2 : UInt8} {k : Nat} {hex : Bool} (args tail : Bytes)
-    (hr : ruleEsc c2 = some (k, hex)) (hl : args.length = k) (hd : digitsOK hex args = true) :
+    (hr : ruleEsc c2 = some (k, hex)) (hl : args.length = k) (hd : digitsOK hex args = true)
+    (hnu : (c2 == 0x75) = false) :
     ∃ out, goEscape c2 (args ++ tail) = some (out, tail) := by
   unfold ruleEsc at hr
   split at hr
@@ -339,7 +414,7 @@ theorem goEscape_ok {c2 : UInt8} {k : Nat} {hex : Bool} (args tail : Bytes)
     have : args = [] := List.length_eq_zero_iff.mp hl
     subst this
     simp only [Bool.or_eq_true, beq_iff_eq] at hs
-    rcases hs with (((((((h | h) | h) | h) | h) | h) | h) | h) | h <;> subst h <;>
+    rcases hs with ((((((((h | h) | h) | h) | h) | h) | h) | h) | h) | h <;> subst h <;>
       simp [goEscape, isOct]
   · split at hr
     · -- octal
@@ -374,17 +449,7 @@ theorem goEscape_ok {c2 : UInt8} {k : Nat} {hex : Bool} (args tail : Bytes)
       · split at hr
         · -- \u
           rename_i _ _ _ hu
-          injection hr with hr; injection hr with hk hh
-          subst hk; subst hh
-          have hu := eq_of_beq hu
-          subst hu
-          match args, hl with
-          | [h0, h1, h2, h3], _ =>
-            simp only [digitsOK, ↓reduceIte, List.all_cons, List.all_nil, Bool.and_true,
-              Bool.and_eq_true] at hd
-            obtain ⟨v, hv⟩ := hexByte_some hd.1 hd.2.1
-            obtain ⟨w, hw⟩ := hexByte_some hd.2.2.1 hd.2.2.2
-            simp [goEscape, hv, hw]
+          rw [hnu] at hu; cases hu
         · split at hr
           · -- \U
             rename_i _ _ _ _ hU
@@ -407,22 +472,48 @@ end Martian.Lexer
 
 namespace Martian.Lexer
 
-theorem scanBody_unq : ∀ (f : Nat) (s body : Bytes), scanBody f s = some body →
-    ∀ g, body.length < g → ∃ out, unqLoop g body = some out := by
+/-- `\uXXXX`: four hex digits, then the surrogate-pair look-ahead -/
+theorem goEscape_u (args tail : Bytes) (hl : args.length = 4) (hd : digitsOK true args = true)
+    (hw : WF tail) :
+    ∃ out rest, goEscape 0x75 (args ++ tail) = some (out, rest) ∧ WF rest ∧ rest.length ≤ tail.length := by
+  match args, hl with
+  | [h0, h1, h2, h3], _ =>
+    simp only [digitsOK, ↓reduceIte, List.all_cons, List.all_nil, Bool.and_true,
+      Bool.and_eq_true] at hd
+    obtain ⟨v, hv⟩ := hexByte_some hd.1 hd.2.1
+    obtain ⟨w, hw'⟩ := hexByte_some hd.2.2.1 hd.2.2.2
+    obtain ⟨out, rest, h1, h2, h3⟩ := surrPair_ok (w + v * 256) tail hw
+    exact ⟨out, rest, by simp [goEscape, hv, hw', h1], h2, h3⟩
+
+theorem goEscape_wf {c2 : UInt8} {k : Nat} {hex : Bool} (args tail : Bytes)
+    (hr : ruleEsc c2 = some (k, hex)) (hl : args.length = k) (hd : digitsOK hex args = true)
+    (hw : WF tail) :
+    ∃ out rest, goEscape c2 (args ++ tail) = some (out, rest) ∧ WF rest ∧ rest.length ≤ tail.length := by
+  by_cases hu : (c2 == 0x75) = true
+  · have hc2 : c2 = 0x75 := eq_of_beq hu
+    subst hc2
+    have : ruleEsc 0x75 = some (4, true) := by decide
+    rw [this] at hr; injection hr with hr; injection hr with h1 h2
+    subst h1; subst h2
+    exact goEscape_u args tail hl hd hw
+  · have hnu : (c2 == 0x75) = false := by simpa using hu
+    obtain ⟨out, h⟩ := goEscape_ok args tail hr hl hd hnu
+    exact ⟨out, tail, h, hw, Nat.le_refl _⟩
+
+theorem scanBody_wf : ∀ (f : Nat) (s body : Bytes), scanBody f s = some body → WF body := by
   intro f
   induction f with
   | zero => intro s body h; simp [scanBody] at h
   | succ f ih =>
-    intro s body h g hg
+    intro s body h
     cases s with
     | nil => simp [scanBody] at h
     | cons c r =>
-      obtain ⟨g', rfl⟩ : ∃ g', g = g' + 1 := ⟨g - 1, by omega⟩
       unfold scanBody at h
       by_cases hq : (c == 0x22) = true
       · simp only [hq, ↓reduceIte] at h
         injection h with h; subst h
-        exact ⟨[], by simp [unqLoop]⟩
+        exact WF.nil
       · simp only [hq, Bool.false_eq_true, ↓reduceIte] at h
         by_cases hb : (c == 0x5C) = true
         · simp only [hb, ↓reduceIte] at h
@@ -443,14 +534,9 @@ theorem scanBody_unq : ∀ (f : Nat) (s body : Bytes), scanBody f s = some body 
                 | some body' =>
                   simp only [hs, Option.map_some, Option.some.injEq] at h
                   subst h
-                  obtain ⟨out, hout⟩ := goEscape_ok (r2.take k) body' hr hcond.1 hcond.2
-                  have hlen : body'.length < g' := by
-                    simp only [List.length_cons, List.length_append] at hg; omega
-                  obtain ⟨o2, ho2⟩ := ih _ _ hs g' hlen
-                  refine ⟨out ++ o2, ?_⟩
                   have hc : c = 0x5C := eq_of_beq hb
                   subst hc
-                  simp [unqLoop, hout, ho2]
+                  exact WF.esc c2 k hex _ body' hr hcond.1 hcond.2 (ih _ _ hs)
               · cases h
         · simp only [hb, Bool.false_eq_true, ↓reduceIte] at h
           cases hs : scanBody f r with
@@ -458,12 +544,31 @@ theorem scanBody_unq : ∀ (f : Nat) (s body : Bytes), scanBody f s = some body 
           | some body' =>
             simp only [hs, Option.map_some, Option.some.injEq] at h
             subst h
-            have hlen : body'.length < g' := by
-              simp only [List.length_cons] at hg; omega
-            obtain ⟨o2, ho2⟩ := ih _ _ hs g' hlen
-            refine ⟨c :: o2, ?_⟩
-            have hne : (c != 0x5C) = true := by simp [bne, hb]
-            simp [unqLoop, hne, ho2]
+            exact WF.plain c body' (by simpa using hb) (ih _ _ hs)
+
+theorem wf_unq : ∀ (g : Nat) (body : Bytes), WF body → body.length < g →
+    ∃ out, unqLoop g body = some out := by
+  intro g
+  induction g with
+  | zero => intro body _ h; omega
+  | succ g ih =>
+    intro body hw hg
+    cases hw with
+    | nil => exact ⟨[], by simp [unqLoop]⟩
+    | plain c r hc hr =>
+      obtain ⟨o2, ho2⟩ := ih r hr (by simp only [List.length_cons] at hg; omega)
+      have hne : (c != 0x5C) = true := by simp [bne, hc]
+      exact ⟨c :: o2, by simp [unqLoop, hne, ho2]⟩
+    | esc c2 k hex args tail hr hl hd ht =>
+      obtain ⟨out, rest, h1, h2, h3⟩ := goEscape_wf args tail hr hl hd ht
+      have hlen : rest.length < g := by
+        simp only [List.length_cons, List.length_append] at hg; omega
+      obtain ⟨o2, ho2⟩ := ih rest h2 hlen
+      exact ⟨out ++ o2, by simp [unqLoop, h1, ho2]⟩
+
+theorem scanBody_unq (f : Nat) (s body : Bytes) (h : scanBody f s = some body) :
+    ∀ g, body.length < g → ∃ out, unqLoop g body = some out :=
+  fun g hg => wf_unq g body (scanBody_wf f s body h) hg
 
 /-- Every token the string rule admits is unquoted without a panic. -/
 theorem matchString_unquote {b t : Bytes} (h : matchString b = some t) :
